@@ -32,6 +32,7 @@ D == Term("diag", 4, v2, <<2, -3>>, <<>>)
 D0 == Term("diag", 5, v2, <<2, 0>>, <<>>)
 \* ---- v3 -> v3
 Tz == Term("toep", 6, v3, <<3, 1>>, <<>>)          \* SPD tridiagonal
+Tn == Term("toep", 53, v3, <<1, 2>>, <<>>)           \* symmetric, indefinite (eigenvalues 1 + 2 sqrt 2, 1, 1 - 2 sqrt 2)
 D3 == Term("diag", 7, v3, <<2, 5, -1>>, <<>>)
 \* ---- v2 <-> v3
 G == Dense(8, v2, 3, 2, <<1, 2, 3, 4, 5, 6>>)      \* v2 -> v3
@@ -114,7 +115,7 @@ AtomTable ==
     H2 |-> Hom(2, 1, v2), Hh |-> Hom(-1, 2, v2), H3 |-> Hom(3, 1, v3), Hq |-> Hom(-3, 1, QU2), Hm |-> Hom(1, 2, m23),
     H6 |-> Hom(2, 1, v6), D0 |-> D0, D0I |-> DInvOf(D0), Dl |-> Dl, DlI |-> DInvOf(Dl), Prl |-> Prl, PrlT |-> TOf(Prl), BDl |-> BDl, BDi |-> BDi, BRl |-> BRl, BCl |-> BCl,
     Il |-> Id(L22), Hl |-> Hom(-2, 1, L22), Ob |-> Ob, ObT |-> TOf(Ob), Mp |-> Mp, Mq |-> Mq, MpT |-> Transpose(Mp), Ma |-> Ma, Mb |-> Mb, MaT |-> Transpose(Ma), Mc |-> Mc, McT |-> Transpose(Mc), Mn |-> Mn, Dq |-> Dq, DqI |-> DInvOf(Dq), Dh |-> Dh, D3I |-> DInvOf(D3), AB |-> AddT(<<A, B>>),
-    Pp |-> Pp, PpT |-> TOf(Pp), Pn |-> Pn, BRt |-> BRt, BCt |-> BCt, Dw |-> Dw, DwI |-> DInvOf(Dw) ]
+    Pp |-> Pp, PpT |-> TOf(Pp), Pn |-> Pn, BRt |-> BRt, BCt |-> BCt, Dw |-> Dw, DwI |-> DInvOf(Dw), Tn |-> Tn ]
 
 AllAtomNames == DOMAIN AtomTable
 =============================================================================
